@@ -89,4 +89,3 @@ func (n *node) stop() {
 func (n *node) restart() { n.stop(); n.start() }
 
 func (n *node) destroy() { n.stop(); os.RemoveAll(n.dir) }
-
